@@ -15,8 +15,9 @@ and compared with the Lean model (correspondence, one driver call for all cases)
               harness process)                                   vs  Grid.layoutSheet
   store       rows of `read_sheets` (what read_excel parses)      vs  Grid.store of the recorded rows and of the
               model's own layout  (this samples the external openpyxl law)
-  styles      cells carrying font / fill / alignment in the saved workbook, and widened columns
-                                                                 vs  Grid.styleTargets / widenedColumns
+  styles      every cell carrying font / fill / alignment in the saved workbook lies in the rows of a table and
+              inside the sheet (the statement of style_touches_no_value); equality with Grid.styleTargets /
+              widenedColumns is reported as information only
   read        every block read_excel yields (type, origin row, sheet, value)
                                                                  vs  Grid.readExcel (Grid.writeExcel …)
   wf          the Python well-formedness predicate (written from DESIGN §3 and the StarTable marker rules,
@@ -118,7 +119,7 @@ FLOATS_FIXED = [0.0, -0.0, 1.0, 2.0, -3.0, 2.5, 0.1, 1e20, 1e15, 1e16, -1e-7, 12
 INTS_FIXED = [0, 1, -1, 2, 10, -17, 123456789, 999999999999999, -999999999999999]
 # names colliding (also ignoring case) with the title openpyxl gives its default sheet, and their de-duplicated forms
 DEFAULT_TITLE_NAMES = ["Sheet", "sheet", "SHEET", "Sheet1", "Sheet11", "Sheet2"]
-PATTERNS = [None, None, r"", r"in", r"S", r"[a-z]", r".*t", r"data$", r"[A-Z]", r"x1|out", r"\d", r"nomatch",
+PATTERNS = [None, None, r"DATA", r"sheet\d*$", r"TAB|OUT", r"", r"in", r"S", r"[a-z]", r".*t", r"data$", r"[A-Z]", r"x1|out", r"\d", r"nomatch",
             r"Sheet$", r"Sheet1", r"(?i)sheet$", r"Sheet\d+$"]
 
 
@@ -264,7 +265,7 @@ def gen_table(rng, k):
     if name.startswith("=") or not all(char_ok(c) for c in name):
         name = "t%d" % k
     dests = set()
-    for _ in range(rng.choice([1, 1, 1, 2, 3])):
+    for _ in range(rng.choice([1, 1, 1, 2, 3, 5, 7])):
         d = rng.choice(["all", "a", "b", "your_farm", "x-1", "é", "D", "me,you", "42", "d\U0001F600", "\U00020000\U0001D538"])
         dests.add(d)
     cols, used = [], set()
@@ -288,6 +289,10 @@ def gen_table(rng, k):
         else:
             vals = [rng.choice(INTS_FIXED) if rng.random() < 0.4 else rng.randint(-10 ** 6, 10 ** 6) for _ in range(n_row)]
         col = {"name": cname, "unit": unit, "kind": kind, "values": vals}
+        if kind == "int" and rng.random() < 0.3:
+            # pandas' nullable Int64 with pd.NA holes (None in the spec): written as na_rep, read back as NaN
+            col["nullable"] = True
+            col["values"] = [None if rng.random() < 0.3 else v for v in vals]
         if kind == "text" and rng.random() < 0.3:
             col["text_dtype"] = "str"         # pandas' string dtype instead of object
         if kind == "datetime":
@@ -311,9 +316,10 @@ def gen_table(rng, k):
 
 
 def gen_sheets(rng):
-    n = rng.choice([1, 1, 2, 2, 3])
+    n = rng.choice([1, 1, 2, 2, 3, 3, 5, 6])
     names = []
     pool = DEFAULT_TITLE_NAMES if rng.random() < 0.3 else SHEET_NAMES + DEFAULT_TITLE_NAMES
+    n = min(n, len({x.lower() for x in pool}))          # the pool may hold fewer names that are distinct ignoring case
     while len(names) < n:
         s = rng.choice(pool)
         if s.lower() not in [x.lower() for x in names]:
@@ -322,7 +328,7 @@ def gen_sheets(rng):
     sheets = []
     for s in names:
         tabs = []
-        for _ in range(rng.choice([0, 1, 1, 2, 2, 3])):
+        for _ in range(rng.choice([0, 1, 1, 2, 2, 3, 3, 6, 8])):
             tabs.append(gen_table(rng, k))
             k += 1
         if len(tabs) >= 2 and rng.random() < 0.25:
@@ -412,7 +418,8 @@ def build_table(spec):
         elif k == "num":
             data[c["name"]] = pd.Series([float(x) for x in v], dtype=np.float64)
         else:
-            data[c["name"]] = pd.Series(v, dtype=np.int64)
+            data[c["name"]] = pd.Series(pd.array([pd.NA if x is None else x for x in v], dtype="Int64")) \
+                if c.get("nullable") else pd.Series(v, dtype=np.int64)
     frame_index = None
     n_rows = len(final[0]["values"]) if final else 0
     if spec.get("row_labels") and n_rows:
@@ -464,7 +471,7 @@ def model_table(t):
             elif kind == "f":
                 vals.append({"n": float_tok(float(x))})
             elif kind in "iu":
-                vals.append({"i": int(x)})
+                vals.append({"n": "nan"} if pd.isna(x) else {"i": int(x)})
             elif kind == "M":
                 vals.append({"d": "NaT" if pd.isna(x) else pd.Timestamp(x).isoformat()})
             else:
@@ -526,7 +533,7 @@ def py_wf(spec):
             elif k == "num":
                 ok = u not in ("text", "onoff", "datetime") and (v == "nan" or sig15(v))
             else:
-                ok = u not in ("text", "onoff", "datetime") and abs(v) < 10 ** 15
+                ok = u not in ("text", "onoff", "datetime") and (v is None or abs(v) < 10 ** 15)
             if not ok:
                 return False
     if spec["transposed"]:
@@ -769,7 +776,7 @@ def canon_expected_table(spec):
         if k == "num":
             cols.append(("num", [float(x) for x in c["values"]]))
         elif k == "int":
-            cols.append(("num", [float(x) for x in c["values"]]))
+            cols.append(("num", [float("nan") if x is None else float(x) for x in c["values"]]))
         elif k == "datetime":
             cols.append(("dt", ["NaT" if x is None else x for x in c["values"]]))
         elif k == "onoff":
@@ -805,14 +812,19 @@ def same_table(exp, got):
     return None
 
 
-def read_back(source, pattern, origin_mode=None):
+def compile_pattern(pattern, flags):
+    """the compiled sheet_name_pattern of a case (flags live in the compiled object, not in the pattern text)"""
+    return re.compile(pattern, re.IGNORECASE if flags == "I" else 0)
+
+
+def read_back(source, pattern, origin_mode=None, flags=None):
     """-> ({"blocks": [...], "ending": ...}, [(sheet, canon_table)]) from the real read_excel"""
     from pdtable import read_excel
     from pdtable.table_origin import InputError
     blocks, tabs, ending = [], [], "exhausted"
     kw = {}
     if pattern is not None:
-        kw["sheet_name_pattern"] = re.compile(pattern)
+        kw["sheet_name_pattern"] = compile_pattern(pattern, flags)
     if origin_mode == "origin":
         kw["origin"] = "spec given by the caller"
     elif origin_mode == "location_file":
@@ -875,7 +887,7 @@ def run_case(case, out, tmp, model_ok, ops, pend, oracle=True):
     tag = "c%s" % case.get("index", "r")
     na_rep = case.get("na_rep", "-")
     origin_mode = case.get("origin_mode")
-    brief = {k: case[k] for k in ("seed", "index", "styles", "sep", "target", "pattern", "na_rep", "origin_mode")
+    brief = {k: case[k] for k in ("seed", "index", "styles", "sep", "target", "pattern", "pattern_flags", "na_rep", "origin_mode")
              if k in case}
     brief["sheets"] = sheets
 
@@ -937,8 +949,9 @@ def run_case(case, out, tmp, model_ok, ops, pend, oracle=True):
     else:
         source = io.BytesIO(data)
     names = [s["name"] for s in sheets]
-    matching = names if pattern is None else [n for n in names if re.compile(pattern).match(n)]
-    impl_read, tabs = read_back(source, pattern, origin_mode)
+    flags = case.get("pattern_flags")
+    matching = names if pattern is None else [n for n in names if compile_pattern(pattern, flags).match(n)]
+    impl_read, tabs = read_back(source, pattern, origin_mode, case.get("pattern_flags"))
     if kind != "path":
         source = io.BytesIO(data)
     impl_sheets = sheets_via_pdtable(source)
@@ -980,6 +993,7 @@ def run_case(case, out, tmp, model_ok, ops, pend, oracle=True):
             ops.append({"op": "grid_layout", "tables": m["tables"], "sep": sep, "naRep": na_rep})
             pend.append(("layout", brief, {"appended": appended.get(s["name"], []),
                                            "stored": dict(impl_sheets).get(s["name"]),
+                                           "rects": table_row_ranges(s, sep),
                                            "dims": [[len(t.df), len(t.df.columns), bool(t.metadata.transposed)]
                                                     for t in real[s["name"]]]}))
             ops.append({"op": "grid_store", "rows": common.grid_to_json(appended.get(s["name"], []))})
@@ -1021,8 +1035,8 @@ def judge(what, case, impl, ans, out):
         if impl["appended"] and ans["rows"] != rows:
             # the call protocol to openpyxl is not part of C09: information only (the saved grid decides)
             out.count("info: rows handed to ws.append differ literally from Grid.layoutSheet")
-        st = strip_blank_tail(common.grid_to_json(impl["stored"] or []))
-        if strip_blank_tail(ans["stored"]) != st:
+        st = canon_dest_cells(strip_blank_tail(common.grid_to_json(impl["stored"] or [])), impl["rects"])
+        if canon_dest_cells(strip_blank_tail(ans["stored"]), impl["rects"]) != st:
             out.mismatch("read_sheets rows vs Grid.store (Grid.layoutSheet …)", case, st, ans["stored"])
         if ans["dims"] != impl["dims"]:
             out.mismatch("table dimensions vs Grid.dimOf", case, impl["dims"], ans["dims"])
@@ -1033,14 +1047,20 @@ def judge(what, case, impl, ans, out):
             return
         st = common.grid_to_json(impl["stored"] or [])
         if ans != st:
-            out.mismatch("openpyxl law: read-back rows vs Grid.store of the appended rows", case, st, ans)
+            # what the recorder saw of ws.append is evidence only (a writer may fill cells another way and still append
+            # its blank rows): the saved grid is judged against Grid.store (Grid.layoutSheet …) in "layout"
+            out.count("info: Grid.store of the recorded ws.append rows differs from the saved grid (other write protocol)")
+        else:
+            out.count("openpyxl law sampled on recorded rows: agrees")
         return
     if what == "write_read":
         if "exc" in ans:
             out.mismatch("the model's write_excel raises, the implementation does not", case, "a workbook", ans)
             return
-        m_sheets = [(s["name"], strip_blank_tail(s["rows"])) for s in ans["sheets"]]
-        i_sheets = [(n, strip_blank_tail(common.grid_to_json(rows))) for n, rows in impl["sheets"]]
+        m_sheets = [(s["name"], canon_dest_cells(strip_blank_tail(s["rows"]), impl["rects"].get(s["name"], [])))
+                    for s in ans["sheets"]]
+        i_sheets = [(n, canon_dest_cells(strip_blank_tail(common.grid_to_json(rows)), impl["rects"].get(n, [])))
+                    for n, rows in impl["sheets"]]
         if m_sheets != i_sheets:
             out.mismatch("workbook value grid vs Grid.writeExcel", case, i_sheets, m_sheets)
         if common_json(impl["grid"]) != [(n, common.grid_to_json(rows)) for n, rows in impl["sheets"]]:
@@ -1070,6 +1090,16 @@ def judge(what, case, impl, ans, out):
                 if s["widened"] != wid:
                     out.count("info: widened columns differ from Grid.widenedColumns")
         return
+
+
+def canon_dest_cells(rows, rects):
+    """the destinations cell of every table (second row of its block, first cell) as sorted tokens: destinations are a
+    set, the order in which they are joined is not part of C09"""
+    rows = [list(r) for r in rows]
+    for lo, _hi in rects:
+        if lo + 1 < len(rows) and rows[lo + 1] and isinstance(rows[lo + 1][0], str):
+            rows[lo + 1][0] = " ".join(sorted(rows[lo + 1][0].split(" ")))
+    return rows
 
 
 def strip_blank_tail(rows):
@@ -1105,7 +1135,7 @@ def run(tier, seed, model_ok, translator, search=False):
                 "non-trivial = at least one table with a column; distinct by sheet map and settings")
     rng = make_rng(seed, "C09")
     thorough = tier == "thorough"
-    n_cases = (1200 if thorough else 120) if not search else 500
+    n_cases = (1000 if thorough else 90) if not search else 500
     tmp = tempfile.mkdtemp(prefix="c09-")
     ops, pend = [], []
     try:
@@ -1123,8 +1153,9 @@ def run(tier, seed, model_ok, translator, search=False):
         for i in range(n_cases):
             sheets = gen_sheets(rng)
             st = rng.choice(["False", "True", "True", "custom:0", "custom:0", "custom:1", "custom:2", "custom:3"])
-            case = {"seed": seed, "index": i, "sheets": sheets, "styles": st, "sep": rng.choice([1, 1, 2, 3]),
+            case = {"seed": seed, "index": i, "sheets": sheets, "styles": st, "sep": rng.choice([1, 1, 2, 3, 4, 6]),
                     "target": rng.choice(["path", "bytes"]), "pattern": rng.choice(PATTERNS),
+                    "pattern_flags": rng.choice([None, None, "I"]),
                     "na_rep": rng.choice(["-", "-", "-", "nan", "NaN", " - ", "NAN", "-"]),
                     "origin_mode": rng.choice([None, None, "origin", "location_file"])}
             out.count("na_rep:" + repr(case["na_rep"]))
@@ -1267,7 +1298,12 @@ def fixed_cases(seed):
         lt["row_labels"], lt["row_labels_seed"] = kind, i
         lt["columns"][1]["res"] = ["s", "ms", "us", "ns", "us"][i]
         lab.append(lt)
-    shapes = [lab[:3], lab[3:], [cv, cvt], [rcol], [rh], [th, rh], [z], [zt], [r0], [t0], [r], [t], [z, z], [zt, z], [z, zt], [r, z], [z, r], [t, z, t0, r0], [r0, t0, zt, r, t1],
+    # text that looks like a missing-value marker is text (every position, both orientations)
+    mk = tab("markers", False, [col("first", "text", "text", ["-", "nan", "NaN", " - ", "NAN", "None", "x"]),
+                                col("second", "text", "text", ["NaN", "-", "x", "nan", "-", " - ", "None"]),
+                                col("v", "num", "m", ["1.0", "nan", "2.0", "nan", "3.0", "4.0", "5.0"])])
+    mkt = dict(mk, name="markers_t", transposed=True)
+    shapes = [[mk, mkt], lab[:3], lab[3:], [cv, cvt], [rcol], [rh], [th, rh], [z], [zt], [r0], [t0], [r], [t], [z, z], [zt, z], [z, zt], [r, z], [z, r], [t, z, t0, r0], [r0, t0, zt, r, t1],
               [t1], [t1, z], []]
     cases = []
     for i, tabs in enumerate(shapes):
